@@ -636,6 +636,9 @@ func (fr *Frame) objSV(o types.Object, ctx *specCtx) SV {
 		sp := g.P.spkgs[o.Pkg().Name()]
 		if sp != nil {
 			if gl, ok := sp.Members[o.Name()].(*ssa.Global); ok {
+				if ct, isConst := g.globalConstTerm(gl); isConst {
+					return goSV(Val{T: o.Type(), S: ct})
+				}
 				a := g.globalAddr(gl)
 				return goSV(Val{T: o.Type(), S: g.load(ctx.st, a, o.Type())})
 			}
@@ -845,6 +848,22 @@ func (fr *Frame) evalBinary(x *SBinary, ctx *specCtx) SV {
 			}
 		}
 		return SV{Term: g.mathBin(x.Op, g.asMath(a), g.asMath(b)), K: svMath}
+	case "&":
+		if k, ok := isMathConst(g, g.asMath(b)); ok && k >= 0 && isPow2Minus1(big.NewInt(k)) {
+			if g.mode == ModeInt {
+				return SV{Term: "(mod " + g.asMath(a) + " " + fmt.Sprint(k+1) + ")", K: svMath}
+			}
+			return SV{Term: g.mathBin("&", g.asMath(a), g.asMath(b)), K: svMath}
+		}
+		fail("spec: & needs a constant mask of the form 2^k-1")
+	case ">>":
+		if k, ok := isMathConst(g, g.asMath(b)); ok && k >= 0 && k < 63 {
+			if g.mode == ModeInt {
+				return SV{Term: "(div " + g.asMath(a) + " " + pow2(int(k)).String() + ")", K: svMath}
+			}
+			return SV{Term: g.mathBin(">>", g.asMath(a), g.asMath(b)), K: svMath}
+		}
+		fail("spec: >> needs a constant shift")
 	case "<<":
 		// spec shifts: only by constants
 		if k, ok := isMathConst(g, g.asMath(b)); ok {
